@@ -987,7 +987,10 @@ func (c *caseCtx) analyse(op string, events []*crashfs.Event, pend []pendingImag
 		if s.K == "logremove" {
 			seenRm = true
 		} else if seenRm && (s.K == "rm" || s.K == "mv") {
-			inst.Unord = append(inst.Unord, s.Src)
+			// one entry per input (an input may be parked and then removed: two mutations)
+			if n := len(inst.Unord); n == 0 || inst.Unord[n-1] != s.Src {
+				inst.Unord = append(inst.Unord, s.Src)
+			}
 		}
 	}
 	inst.Nontriv = len(inst.Old) >= 2 && len(inst.Steps) >= 6
